@@ -163,6 +163,25 @@ static int mode_mutate(const char* path, int n_per_file, int shard, int nshards,
             j.bytes = apply_edits(c.bytes, es); j.pre = x_line(j.id, c.id, j.cfg, kind, es); j.same_as = &c.dump;
             jobs.push_back(std::move(j));
         }
+        // directed pairs (not random): every TOPO chunk moved in front of the preceding TOPO chunk, with its handle offset
+        // set to each of a few values around the counts of the file (the entities it refers to then arrive later)
+        if (c.bytes.size() <= 200000) {
+            std::vector<size_t> topo; for (size_t i = 0; i < L.chunks.size(); ++i) if (L.chunks[i].type == fourcc("TOPO")) topo.push_back(i);
+            int dk = 0;
+            for (size_t t = 1; t < topo.size(); ++t) {
+                const ChunkInfo& ch = L.chunks[topo[t]]; const ChunkInfo& prev = L.chunks[topo[t - 1]];
+                if (ch.len < 16 + 24) continue;
+                uint64_t nE = get_le(c.bytes, 24, 8), nF = get_le(c.bytes, 32, 8);
+                for (uint64_t off : {uint64_t(0), uint64_t(1), uint64_t(2), uint64_t(3), 2 * nE - 1, 2 * nE, 2 * nF - 1, 2 * nF, 2 * nF + 1}) {
+                    Bytes cb(c.bytes.begin() + ch.off, c.bytes.begin() + ch.off + ch.len);
+                    Bytes ins; put_le(ins, off, 8); std::copy(ins.begin(), ins.end(), cb.begin() + 16 + 16);   // topo_handle_offset
+                    std::vector<Edit> es = {{prev.off, 0, cb}, {ch.off, ch.len, Bytes()}};
+                    Job j; j.id = c.id + ".d" + std::to_string(dk++); j.cfg.mk = compatible_kind(c, r); j.cfg.tc = (dk % 2) == 0; j.cfg.bu = (dk % 4) < 2;
+                    j.bytes = apply_edits(c.bytes, es); j.pre = x_line(j.id, c.id, j.cfg, "directed:chunk-move+topo_handle_offset", es); j.same_as = &c.dump;
+                    jobs.push_back(std::move(j));
+                }
+            }
+        }
     }
     run_jobs(jobs, std::cout);
     return 0;
